@@ -156,7 +156,7 @@ def sort_key(t):
     return tuple(repr(x) for x in t)
 
 
-def step_oracle(inf, code, h, o, case, prog, out):
+def step_oracle(inf, code, h, o, case, prog, out, had_dups=False):
     m = inf.m
     where = dict(case, program=list(prog), step=len(prog))
     if code == 3:
@@ -194,6 +194,11 @@ def step_oracle(inf, code, h, o, case, prog, out):
             out.fails.append(('indicate', 'removing the inserted triples does not give back the input', where))
         elif (common.canon_graph(o)['epidata'] != common.canon_graph(h)['epidata'] or o.metadata != h.metadata):
             out.fails.append(('indicate', 'indicate_branches changed markers or metadata', where))
+        elif case['provenance'] == 'decoded' and had_dups:
+            # an earlier step of this program returned two EQUAL triples (a table with two roles sharing one
+            # reification row makes dereification ambiguous): they share one marker list, so one Push was overwritten
+            # and the markers no longer describe a text -- the premise of the clause below is gone
+            out.stats['nested-node-clause-not-judged:equal-triples-earlier-in-the-program'] += 1
         elif case['provenance'] == 'decoded' and len(set(h.triples)) == len(h.triples):
             # `one top-role triple per nested node`: for a graph that still carries the markers of its text (decoded,
             # possibly transformed, never edited) the nested nodes are those of the tree that encode writes.  Not judged
@@ -329,17 +334,20 @@ def eval_graph(inf, g, case, programs, out, pending, ctx):
     m = inf.m
     wg = c11.graph_txt(g)
     memo = {(): ('ok', g)}
+    dups = {(): len(set(g.triples)) != len(g.triples)}      # some graph on the way had two equal triples
 
     def result(prog):
         if prog in memo:
             return memo[prog]
         prev = result(prog[:-1])
+        dups[prog] = dups[prog[:-1]]
         if prev[0] != 'ok':
             memo[prog] = prev
             return prev
         o = impl_out(impl_apply, prog[-1], prev[1], m)
         if o[0] == 'ok':
-            step_oracle(inf, prog[-1], prev[1], o[1], case, prog, out)
+            step_oracle(inf, prog[-1], prev[1], o[1], case, prog, out, had_dups=dups[prog])
+            dups[prog] = dups[prog] or len(set(o[1].triples)) != len(o[1].triples)
         memo[prog] = o
         return o
 
